@@ -16,14 +16,17 @@ META = {
                    'themselves use - getUtcOffset(e), the look-ups of the transition storage, TimeZone::getOffsetDateTime '
                    '(acv/rules_C07b.py); the two look-ups '
                    'interpreted (E-SEQ, typed, DateTuple operators and LocalDateTime accessors through their bodies) on pools of '
-                   '0..4 transitions with queries before, at, one unit around and between every start.',
+                   '0..4 transitions with queries before, at, one unit around and between every start; getOffsetDateTime() of both processors interpreted '
+                   'in full (no stand-in for the zone) on the model zones of acv/rules_C04c.py, on the local times one second before / at / inside / '
+                   'at the end of / after every gap and overlap of 2004..2006, against the timeline of the interpreted reference (R4).',
     'decided': 'date tuples are canonical (0 <= minutes < 1440) after normalisation for every input the tables can produce; the '
                'result of getOffsetDateTime() carries the offset the zone has at the instant the result denotes, for local times inside '
                'each period and one second before / at / inside / at the end of / after the gap and the overlap; a local time that exists '
                'once comes back unchanged, one in the gap as an existing time, one in the overlap as one of its two readings; a failed '
                'init() gives the error value; ZonedDateTime::forComponents returns what the time zone returned; both look-ups return the last '
-               'transition whose start is <= the query',
-    'not_decided': 'which occurrence is chosen in every overlap/gap of every zone (behavioural)',
+               'transition whose start is <= the query; on the model zones a local time that exists twice comes back as one of its readings (the later '
+               'one from the extended processor), one in a gap as the instant the offset before the gap gives',
+    'not_decided': 'which occurrence is chosen in the overlaps and gaps of zones unlike the model zones (behavioural)',
     'assumptions': ['clang 14 parser', 'ranges of AT times, offsets and DST shifts are those of the shipped zonedbx tables'],
 }
 
@@ -150,6 +153,8 @@ def run(cfg):
     # ---- R2: the three entry points interpreted against a model zone (acv/rules_C07b.py)
     from . import rules_C07b
     rules_C07b.normalised_rules(R, lib, ob)
+    from . import rules_C04c
+    rules_C04c.local_time_rule(R, cfg, lib, 'R4')
     # ---- R3 look-ups, interpreted on abstract pools
     for name, res in lookup_eval(R.cfg, lib).items():
         f, bad, n = res['c']
